@@ -233,6 +233,60 @@ pub fn replay_sweep(i: u64, tier: Tier, stats: &mut Stats) -> Result<(), Failure
     check_grid_point(i, &lens, &exps, stats)
 }
 
+// ---------------------------------------------------------------------------
+// Deep valid inputs for parse_float itself (child process of the supervisor, 2 MiB thread, every build incl.
+// the unoptimised one): stack use must not grow with the number of digits.
+
+pub const DEEP_KINDS: [&str; 5] = [
+    "integer of nines",
+    "fraction of threes",
+    "1, then integer zeros, compensating exponent",
+    "leading fraction zeros, then 7, compensating exponent",
+    "tie 9007199254740993 + integer zeros + fraction 1, compensating exponent",
+];
+
+pub fn deep_check(kind: usize, n: usize) -> Result<(), String> {
+    let (int, frac, exp): (Vec<u8>, Vec<u8>, i32) = match kind {
+        0 => (vec![b'9'; n], vec![], 0),
+        1 => (vec![], vec![b'3'; n], 0),
+        2 => {
+            let mut i = vec![b'1'];
+            i.extend(std::iter::repeat(b'0').take(n));
+            (i, vec![], -(n as i32))
+        }
+        3 => {
+            let mut f = vec![b'0'; n];
+            f.push(b'7');
+            (vec![], f, n as i32)
+        }
+        _ => {
+            let mut i = b"9007199254740993".to_vec();
+            i.extend(std::iter::repeat(b'0').take(n));
+            (i, b"1".to_vec(), -(n as i32))
+        }
+    };
+    let h = std::thread::Builder::new()
+        .stack_size(2 << 20)
+        .spawn(move || -> Result<(), String> {
+            for fmt in [Fmt::F32, Fmt::F64] {
+                let want = crate::oracle::expected_fast(fmt, &int, &frac, exp as i64);
+                for cfg in CFGS.iter() {
+                    match catch(|| cfg.parse(fmt, &int, &frac, exp)) {
+                        Ok(bits) if bits == want => {}
+                        Ok(bits) => return Err(format!("config {} returned {} for a deep valid input ({} digits) as {}, expected {}", cfg.name, fmt.hex(bits), int.len() + frac.len(), fmt.name(), fmt.hex(want))),
+                        Err(m) => return Err(format!("config {} panicked on a deep valid input ({} digits): {m}", cfg.name, int.len() + frac.len())),
+                    }
+                }
+            }
+            Ok(())
+        })
+        .map_err(|e| e.to_string())?;
+    match h.join() {
+        Ok(r) => r,
+        Err(_) => Err("the deep-input thread panicked".into()),
+    }
+}
+
 pub fn run(ctx: &Ctx) -> i32 {
     let lim: Limits = ctx.tier.pick(Limits { long: 3_000, huge: 100_000 }, Limits { long: 10_000, huge: 1_000_000 });
     let mut rep = Report::new(
